@@ -10,7 +10,7 @@ use std::pin::Pin;
 use std::sync::atomic::{AtomicUsize, Ordering};
 use std::task::{Context, Poll, RawWaker, RawWakerVTable, Waker};
 
-static BODY: [AtomicUsize; 6] = [AtomicUsize::new(0), AtomicUsize::new(0), AtomicUsize::new(0), AtomicUsize::new(0), AtomicUsize::new(0), AtomicUsize::new(0)];
+static BODY: [AtomicUsize; 7] = [AtomicUsize::new(0), AtomicUsize::new(0), AtomicUsize::new(0), AtomicUsize::new(0), AtomicUsize::new(0), AtomicUsize::new(0), AtomicUsize::new(0)];
 static EVALS: AtomicUsize = AtomicUsize::new(0);
 
 struct YieldOnce(bool);
@@ -90,6 +90,13 @@ async fn a_big(n: u64) -> Big {
     Big { a: [n; 8], s: format!("orig{}", n) }
 }
 
+/// a `bool` output: the one output type for which a ready-made constant stub exists in the library
+async fn a_bool(x: u32) -> bool {
+    BODY[6].fetch_add(1, Ordering::SeqCst);
+    YieldOnce(false).await;
+    x % 2 == 0
+}
+
 fn h64(s: &str) -> u64 {
     let mut h: u64 = 0xcbf29ce484222325;
     for b in s.bytes() {
@@ -123,9 +130,13 @@ fn await_fn(i: usize, arg: u32) -> (usize, u64) {
             let (v, p) = block_on_count(svc.method(arg as u64));
             (p, v)
         }
-        _ => {
+        5 => {
             let (v, p) = block_on_count(a_big(arg as u64));
             (p, v.a[3] * 1000 + h64(&v.s) % 1000)
+        }
+        _ => {
+            let (v, p) = block_on_count(a_bool(arg));
+            (p, v as u64)
         }
     }
 }
@@ -161,8 +172,10 @@ fn fake_fn(inj: &mut InjectorPP, i: usize, site: usize) {
         (3, _) => inj.when_called_async(shadow::async_func!(a_string(""), String)).will_return_async(shadow::async_return!(ev!(String::from("fakeB")), String)),
         (4, 0) => inj.when_called_async(shadow::async_func!(Svc(0).method(0), u64)).will_return_async(shadow::async_return!(ev!(7401), u64)),
         (4, _) => inj.when_called_async(shadow::async_func!(Svc(0).method(0), u64)).will_return_async(shadow::async_return!(ev!(7402), u64)),
-        (_, 0) => inj.when_called_async(shadow::async_func!(a_big(0), Big)).will_return_async(shadow::async_return!(ev!(Big { a: [5; 8], s: String::from("fake5") }), Big)),
-        (_, _) => inj.when_called_async(shadow::async_func!(a_big(0), Big)).will_return_async(shadow::async_return!(ev!(Big { a: [6; 8], s: String::from("fake6") }), Big)),
+        (5, 0) => inj.when_called_async(shadow::async_func!(a_big(0), Big)).will_return_async(shadow::async_return!(ev!(Big { a: [5; 8], s: String::from("fake5") }), Big)),
+        (5, _) => inj.when_called_async(shadow::async_func!(a_big(0), Big)).will_return_async(shadow::async_return!(ev!(Big { a: [6; 8], s: String::from("fake6") }), Big)),
+        (_, 0) => inj.when_called_async(shadow::async_func!(a_bool(0), bool)).will_return_async(shadow::async_return!(ev!(true), bool)),
+        (_, _) => inj.when_called_async(shadow::async_func!(a_bool(0), bool)).will_return_async(shadow::async_return!(ev!(false), bool)),
     }
 }
 
@@ -176,7 +189,7 @@ pub fn run(a: &Args, out: &mut impl Write) {
         let nops = r.range(3, 14);
         let mut ops: Vec<String> = Vec::new();
         for _ in 0..nops {
-            let i = r.below(6);
+            let i = r.below(7);
             match r.below(8) {
                 0 | 1 | 2 => {
                     let site = if (i == 1 || i == 2) && r.chance(1, 3) { 2 } else { r.below(2) };
@@ -188,7 +201,7 @@ pub fn run(a: &Args, out: &mut impl Write) {
         }
         // always end with a drop followed by an await of everything
         ops.push("D".to_string());
-        for i in 0..6 {
+        for i in 0..7 {
             ops.push(format!("A{}:{}", i, 3));
         }
         let opsc = ops.clone();
@@ -205,9 +218,9 @@ pub fn run(a: &Args, out: &mut impl Write) {
                     let arg: u32 = arg.parse().unwrap();
                     let b0 = BODY[i].load(Ordering::SeqCst);
                     let e0 = EVALS.load(Ordering::SeqCst);
-                    let others0: usize = (0..6).filter(|&j| j != i).map(|j| BODY[j].load(Ordering::SeqCst)).sum();
+                    let others0: usize = (0..7).filter(|&j| j != i).map(|j| BODY[j].load(Ordering::SeqCst)).sum();
                     let (polls, val) = await_fn(i, arg);
-                    let others1: usize = (0..6).filter(|&j| j != i).map(|j| BODY[j].load(Ordering::SeqCst)).sum();
+                    let others1: usize = (0..7).filter(|&j| j != i).map(|j| BODY[j].load(Ordering::SeqCst)).sum();
                     w.write_all(
                         format!(
                             " {}={}:{}:{}:{}:{}",
